@@ -414,7 +414,122 @@ var mutexModel = porcupine.Model{
 	DescribeOperation: func(in, out interface{}) string { return fmt.Sprintf("%s->%v", in.(sin).Op, out) },
 }
 
+// manyMutexes: mutexes are independent of each other. A block of adjacent mutexes is held,
+// each with one goroutine asleep in Lock; a PRNG subset is unlocked while the others stay
+// held. Every waiter of an unlocked mutex must get in. Lost wake-up = the mutex is free
+// (word 1), no token is queued for it, and the goroutine dump shows its waiter still in
+// the channel receive of Lock - nobody is left who would wake it.
+func manyMutexes(i int) {
+	r := fw.NewRand(run.Seed, "C18", "many", i)
+	n := 16 + r.Intn(113)
+	ms := make([]tmutex.Mutex, n)
+	acquired := make([]int32, n)
+	release := make(chan struct{})
+	var wg sync.WaitGroup
+	for j := range ms {
+		ms[j].Init()
+		ms[j].Lock()
+	}
+	for j := range ms {
+		j := j
+		wg.Add(1)
+		go func() {
+			defer wg.Done()
+			ms[j].Lock()
+			atomic.StoreInt32(&acquired[j], 1)
+			<-release
+			ms[j].Unlock()
+		}()
+	}
+	dump := func() string {
+		buf := make([]byte, 16<<20)
+		return string(buf[:runtime.Stack(buf, true)])
+	}
+	asleep := func(d string, j int) bool {
+		me := strings.ToLower(fmt.Sprintf("%p", &ms[j]))
+		for _, blk := range strings.Split(d, "\n\n") {
+			if strings.Contains(blk, "[chan receive") && strings.Contains(blk, "tmutex.(*Mutex).Lock("+me) {
+				return true
+			}
+		}
+		return false
+	}
+	// wait until every waiter sleeps
+	deadline := time.Now().Add(30 * time.Second)
+	for {
+		d := dump()
+		all := true
+		for j := range ms {
+			if !asleep(d, j) {
+				all = false
+				break
+			}
+		}
+		if all {
+			break
+		}
+		if time.Now().After(deadline) {
+			run.Inconclusive("many-mutexes-setup-watchdog")
+			close(release)
+			for j := range ms {
+				ms[j].Unlock()
+			}
+			return
+		}
+		time.Sleep(2 * time.Millisecond)
+	}
+	opened := map[int]bool{}
+	for j := range ms {
+		if r.Bool() {
+			opened[j] = true
+			ms[j].Unlock()
+		}
+	}
+	lost := -1
+	deadline = time.Now().Add(30 * time.Second)
+	for {
+		pending := 0
+		for j := range opened {
+			if atomic.LoadInt32(&acquired[j]) == 0 {
+				pending++
+			}
+		}
+		if pending == 0 {
+			break
+		}
+		d := dump()
+		for j := range opened {
+			if atomic.LoadInt32(&acquired[j]) == 0 {
+				if v, tokens := ms[j].VerifState(); v == 1 && tokens == 0 && asleep(d, j) && atomic.LoadInt32(&acquired[j]) == 0 {
+					lost = j
+				}
+			}
+		}
+		if lost >= 0 || time.Now().After(deadline) {
+			break
+		}
+		time.Sleep(2 * time.Millisecond)
+	}
+	run.Count("many_mutexes_rounds", 1)
+	run.Count("many_mutexes_waiters_released", int64(len(opened)))
+	run.Case(fw.Hash("many", n/16, len(opened)/8), len(opened) > 0)
+	if lost >= 0 {
+		run.Violation("C18/stress/lost-wakeup-among-many-mutexes", fmt.Sprintf("%d adjacent mutexes, each held with one goroutine asleep in Lock; %d of them were unlocked: mutex #%d is free (word 1), no token is queued for it, and its waiter still sleeps in Lock's channel receive", n, len(opened), lost), map[string]interface{}{"round": i, "mutexes": n})
+		return // the sleeping goroutines are leaked
+	}
+	close(release)
+	for j := range ms {
+		if !opened[j] {
+			ms[j].Unlock()
+		}
+	}
+	wg.Wait()
+}
+
 func stressPhase() {
+	for i := 0; i < fw.N(12, 400) && run.Violations() < 3; i++ {
+		manyMutexes(i)
+	}
 	n := fw.N(4000, 300000)
 	var wg sync.WaitGroup
 	sem := make(chan struct{}, 4)
